@@ -1,10 +1,10 @@
 """C02 -- folding and optimisation never change the computed function (structural clauses)."""
 from ..core import Ctx, Ob, PropSpec
-from ..rules import r3, r12
+from ..rules import r3, r8, r12, r8
 
 
 def run(ctx: Ctx) -> list[Ob]:
-    return r3.r3c(ctx) + r3.r3d(ctx) + r3.r3e(ctx) + r3.r3f(ctx) + r12.r12a_outputs(ctx)
+    return r3.r3c(ctx) + r3.r3d(ctx) + r3.r3e(ctx) + r3.r3f(ctx) + r12.r12a_outputs(ctx) + r8.run_guards(ctx, r8.GUARDS_MATCHERS)
 
 
 SPEC = PropSpec(
@@ -19,12 +19,12 @@ SPEC = PropSpec(
         "the sub-module itself, tensor-parameter groups are keyed on shape/requires_grad/dtype); R3e: every folded symbolic tensor "
         "is re-registered with its slice index; R12a (must-consult): some decision between pattern matching and rewriting in "
         "graph.optimize depends on membership in the graph's outputs (otherwise an interior matched layer that is also a circuit "
-        "output is fused away)."
+        "output is fused away). R8 (truth-table on the CFG of the two chain matchers _match_layer_pattern / _match_parameter_nodes_pattern): under fan-out > 1 at any non-root entry, or fan-in > 1 at any entry but the last, an iteration of the matching loop can only refuse (return None) -- a fused module must not swallow a value another module still reads."
     ),
     not_decided=(
         "that each optimisation rewrite is an algebraic identity (R12b rewrite carry not built); the other match guards (class, "
         "fan-in, fan-out, config patterns); run-time address-book index arithmetic."
     ),
     run=run,
-    floors={"R3c": 35, "R3d": 10, "R3e": 5, "R3f": 150},
+    floors={"R3c": 35, "R3d": 10, "R3e": 5, "R3f": 150, "R8": 12},
 )
